@@ -157,6 +157,63 @@ def alphabet(seed):
     return dict(rows=rows, betas=betas, names=names, k=k)
 
 
+# --------------------------------------------------------------------------- shapes of names (part 'names')
+# The only reserved characters of a name are ';' and ':'.  Every other string is a name, and two names are the same
+# name only when they are the same string.  Each shape rewrites the names of the controllers, catalogs, members and the
+# generic names handed to the helper generators; the structures, tables and parameters stay those of the seed.
+NAME_SHAPES = ('blank-ends', 'twins', 'marks')
+_NAME_KEYS = ('c1', 'c2', 'c3', 'K', 'G', 'GA', 'GB')
+# white space at either end: blank, tab, no-break space, two blanks, a blank at both ends
+_BLANK_ENDS = (' {}', '{} ', ' {} ', '\t{}', '{}\t', ' {}', '{}  ', '{} ', '  {}', '\t{} ', ' {}\t')
+# punctuation that a parser / formatter / pattern could give a meaning to (never ';' nor ':')
+_MARKS = ('{}.1', '{}|{}', '[{}]', '{}={}', '{},{}', '{{{}}}', '({})', '"{}"', '{}*', '{}/{}', '%s{}', '\\{}', '{}?', "'{}", '{}&{}', '#{}',
+          '{}+', '^{}$')
+
+
+def shaped_names(names, shape, k):
+    """The names of a seed rewritten by a shape (None: unchanged)."""
+    if shape is None:
+        return names
+    out = dict(names)
+    keys = list(_NAME_KEYS) + [('m', i) for i in range(len(names['m']))]
+    m = list(names['m'])
+
+    def put(key, value):
+        if isinstance(key, tuple):
+            m[key[1]] = value
+        else:
+            out[key] = value
+
+    def old(key):
+        return names['m'][key[1]] if isinstance(key, tuple) else names[key]
+
+    if shape == 'blank-ends':
+        # every name of the seed with white space at one end (or both); the decoration rotates with the seed
+        for j, key in enumerate(keys):
+            put(key, _BLANK_ENDS[(j + 3 * k) % len(_BLANK_ENDS)].format(old(key)))
+    elif shape == 'marks':
+        for j, key in enumerate(keys):
+            pat = _MARKS[(j + 5 * k) % len(_MARKS)]
+            put(key, pat.format(*([old(key)] * pat.replace('{{', '').count('{}'))))
+    elif shape == 'twins':
+        # names that differ from each other ONLY by letter case, by white space at an end, or by the way an accented
+        # letter is encoded: any normalisation of a name (strip, lower, casefold, unicode normal form) merges two of them
+        low, up = [('k', 'K'), ('ab', 'aB'), ('é', 'é'), ('z z', 'Z z')][k]
+        ctrl = [low, up, low + ' ', ' ' + low, ' ' + up, up + ' ', low + '\t']
+        mem = [[low, up, low + ' ', ' ' + low], [up + ' ', up, low, ' ' + up], [low, up, up.upper() + ' ', low + ' '],
+               [' ' + low, low, up, low + '  ']][k]
+        for j, key in enumerate(_NAME_KEYS):
+            out[key] = ctrl[(j + k) % len(ctrl)]
+        m[:] = mem
+    else:
+        raise KeyError(shape)
+    out['m'] = m
+    flat = [out[key] for key in _NAME_KEYS]
+    if len(set(flat)) != len(flat) or len(set(m)) != len(m) or any(SEP in s or SELSEP in s for s in flat + m):
+        raise RuntimeError(f'alphabet error: shape {shape} of seed alphabet {k} gives {flat} / {m}')
+    return out
+
+
 # =========================================================================== kinds of iterables (reference side)
 # every kind of object that is an Iterable[...] of the listed items, in the listed order
 NAME_CONTAINERS = ('list', 'tuple', 'dict_keys', 'reiterable', 'generator', 'map', 'iterator', 'chain', 'once')
